@@ -331,7 +331,7 @@ func c12GenRelated(tier string, seed uint64, out *bufio.Writer) {
 		c12EmitK(out, sk)
 	}
 	// 3. random members of the family, 3..8 atoms per operand
-	nRand := 1200
+	nRand := 900
 	if thorough {
 		nRand = 8000
 	}
